@@ -1,5 +1,5 @@
 #!/usr/bin/env python3
-"""Copies confirmed seeded changes from /tmp/out-<prop>/<i>/ into /verif/seeded/<id>/ and
+"""Copies confirmed seeded changes from /tmp/{out,o2,o3,...}-<prop>/<i>/ into /verif/seeded/<id>/ and
 records what the checks reported. usage: keepseeds.py <seedtest-log> [<seedtest-log>...]
 A log contains the RESULT / violation lines printed by tools/seedtest.sh."""
 import json, os, re, shutil, sys
@@ -21,12 +21,13 @@ for path in sys.argv[1:]:
 
 kept = 0
 for rid, r in sorted(results.items()):
-    m = re.match(r"out-(C\d+)-(\d+)", rid)
+    m = re.match(r"(out|o2|o3|o4)-(C\d+)-(\d+)", rid)
     if not m:
         continue
-    prop, i = m.group(1), m.group(2)
-    src = f"/tmp/out-{prop}/{i}"
-    sid = f"{prop}-{i}"
+    wave, prop, i = m.group(1), m.group(2), m.group(3)
+    src = f"/tmp/{wave}-{prop}/{i}"
+    # later waves continue the numbering: o2 -> 4,5  o3 -> 6,7 ...
+    sid = f"{prop}-{int(i) + {'out': 0, 'o2': 3, 'o3': 5, 'o4': 7}[wave]}"
     dst = os.path.join(V, "seeded", sid)
     confirmed = r["suite_failures"] == 0 and r["demo_with"] != 0 and r["demo_without"] == 0
     if not confirmed:
